@@ -103,10 +103,7 @@ class VarMachine(Machine):
         m = st.m
         if self.via_autoref and a[0] in ('declare', 'add_var') and (
                 self.pool.index(a[1]) % 2 == 1):
-            w = _autoref.BDD.__new__(_autoref.BDD)
-            w._bdd = m
-            w.vars = m.vars
-            return w
+            return S.autoref_around(m)
         return m
 
     def apply(self, st, a, check=True):
